@@ -37,7 +37,7 @@ from halmos.bytevec import ByteVec  # noqa: E402
 BLOCKS = {
     "quick": [("full", 1, M.INITS), ("small", 2, M.INITS), ("medium", 2, ("W3",)), ("small", 3, ("W3", "M", "N"))],
     "thorough": [("full", 1, M.INITS), ("small", 2, M.INITS), ("medium", 2, M.INITS), ("small", 3, M.INITS),
-                 ("large", 2, ("W3", "M", "N")), ("mid3", 3, ("W3", "M", "N")), ("tiny", 4, ("W3", "N"))],
+                 ("large", 2, ("W3", "M", "N")), ("mid3", 3, ("W3", "M", "N")), ("tiny", 4, ("W3",))],
 }
 Z_BUDGET_S = {"quick": 185, "thorough": 25 * 60}
 CAND_PER_UNIT = 6
@@ -189,8 +189,9 @@ def _unit(u):
            "sample": None, "wall": 0.0, "herr": []}
     t0 = time.time()
     n = 0
-    firsts = first if isinstance(first, tuple) else (first,)
-    for ops in (((al[f],) + rest) for f in firsts for rest in itertools.product(al, repeat=length - 1)):
+    # `first` is a tuple of prefixes (tuples of alphabet indices); the unit enumerates every completion of each
+    for ops in ((tuple(al[i] for i in pre) + rest) for pre in first
+                for rest in itertools.product(al, repeat=length - len(pre))):
         if not M.valid(ops):
             continue
         if time.time() > deadline:
@@ -451,10 +452,13 @@ def _sevm_one(idx):
     this = z3.BitVec("this_address", 160)
     w = driver.World(code={this: code}, target=this, caller=z3.BitVec("msg_sender", 160),
                      origin=z3.BitVec("tx_origin", 160), value=z3.BitVecVal(0, 256), data=data)
-    recs = driver.run(sevm, driver.mk_exec(sevm, w))
+    try:
+        recs = driver.run(sevm, driver.mk_exec(sevm, w))
+        got = driver.bytevec_bytes(recs[0].data) if len(recs) == 1 and recs[0].data is not None else None
+    except Exception as e:  # noqa: BLE001 - the program and its inputs are fixed: the exception comes from the engine
+        return name, "cand", f"the real SEVM raised {type(e).__name__}: {str(e)[:120]} (deterministic re-run = replay)", None
     if len(recs) != 1 or recs[0].error is not None or recs[0].data is None:
         return name, "inconc", f"unexpected paths={len(recs)} error={recs[0].error if recs else None}", None
-    got = driver.bytevec_bytes(recs[0].data)
     want = ref(cd_ref)
     if len(got) != len(want):
         return name, "cand", f"return data length {len(got)} != {len(want)}", None
@@ -537,20 +541,27 @@ def _main(run, tier, blocks, jobs, cap_s, tmpdir, want_z, want_p, want_s):
         units, uid = [], 0
         for level, length, inits in blocks:
             al = alph(level)
+            plen = 1 if length <= 3 else length - 2  # prefix length handled by one unit
+            pres = [pre for pre in itertools.product(range(len(al)), repeat=plen)
+                    if M.valid(tuple(al[i] for i in pre))]
+            per_pre = len(al) ** (length - plen)
+            group = max(1, 160 // per_pre)
             for init in inits:
-                ok1 = [f for f in range(len(al)) if M.valid((al[f],))]
-                group = 48 if length == 1 else 1
-                for g in range(0, len(ok1), group):
-                    first = tuple(ok1[g:g + group]) if group > 1 else ok1[g]
-                    units.append((uid, init, level, length, first, cap_s, deadline))
+                for g in range(0, len(pres), group):
+                    units.append((uid, init, level, length, tuple(pres[g:g + group]), cap_s, deadline))
                     uid += 1
         # short histories first: under time pressure the minimal counterexamples are found first
-        units.sort(key=lambda u: (u[3], u[0]))
-        # ... and round-robin over the blocks, so that a time budget cut degrades all blocks evenly
+        # interleave the blocks proportionally to the work done (so that a time budget cut degrades all blocks evenly);
+        # ties: short histories first (minimal counterexamples are found first)
         by_block: dict = {}
         for u in units:
             by_block.setdefault((u[2], u[3]), []).append(u)
-        units = [u for grp in itertools.zip_longest(*by_block.values()) for u in grp if u is not None]
+        order = []
+        for blk in by_block.values():
+            for k, u in enumerate(blk):
+                order.append(((k + 1) / len(blk), u[3], u[0], u))
+        order.sort(key=lambda t: t[:3])
+        units = [t[3] for t in order]
         if want_s:
             _SEVM_PROGS = sevm_programs(tier)
             units = [("sevm", i) for i in range(len(_SEVM_PROGS))] + units
@@ -595,7 +606,7 @@ def _main(run, tier, blocks, jobs, cap_s, tmpdir, want_z, want_p, want_s):
                     sample_per[(r["level"], r["length"])] = sample_per.get((r["level"], r["length"]), 0) + 1
                     run.sample(r["sample"], limit=12)
                 if r["skipped"]:
-                    fst = r["first"] if not isinstance(r["first"], tuple) else f"{r['first'][0]}..{r['first'][-1]}"
+                    fst = f"{list(r['first'][0])}..{list(r['first'][-1])}"
                     run.inconc("Z.budget", f"{r['init']}:{r['level']}^{r['length']}:first={fst}",
                                f"{r['skipped']} histories not run (time budget)")
                 cands.extend(r["cands"])
@@ -675,8 +686,20 @@ def _main(run, tier, blocks, jobs, cap_s, tmpdir, want_z, want_p, want_s):
             elif status == "inconc":
                 run.inconc("Z.sevm", name, why)
             else:
-                # replay: the model was evaluated on the real engine's output term and on the reference (_sevm_one)
-                run.violation("Z.sevm", f"Z.sevm/{name}", why[:500], {"program": name, "model": model})
+                # replay: run the program again in this process; for a sat answer _sevm_one evaluates the engine's
+                # output term and the reference on the witness and reports a candidate only if the values differ
+                idx = [i for i, p in enumerate(_SEVM_PROGS) if p[0] == name][0]
+                try:
+                    again = _sevm_one(idx)
+                except Exception as e:  # noqa: BLE001
+                    again = (name, "inconc", f"re-run crashed: {type(e).__name__}", None)
+                if again[1] == "cand":
+                    kind = "exception" if "raised" in why else "wrong-return-data"
+                    run.violation("Z.sevm", f"Z.sevm/{kind}", f"program {name} (MSTORE a; MSTORE8 b; MCOPY b+1,a,33; "
+                                  f"CALLDATACOPY a+2,3,40; RETURN 0,160): {why}"[:500],
+                                  {"program": name, "model": model, "bytecode": _SEVM_PROGS[idx][1].hex()})
+                else:
+                    run.inconc("Z.sevm", name, f"candidate did not reproduce on re-run: {why[:150]}")
         run.extra["sevm_programs"] = len(_SEVM_PROGS)
         if nsev == 0:
             run.harness_error("vacuity: no SEVM memory program was decided")
